@@ -240,6 +240,9 @@ class ModelBackend(Backend):
     def touch(self, rel, mtime):
         self.world.nodes[self.p(rel)].mtime = mtime
 
+    def restamp(self, rel):
+        pass
+
     def set_now(self, t, micro=0):
         self.world.now, self.world.now_micro = t, micro
 
@@ -260,7 +263,8 @@ class ModelBackend(Backend):
         self.world.zone = W.Zone(std_off, dst_off, isdst)
 
     def now_window(self):
-        return (self.world.now, self.world.now)
+        t = getattr(self, "last_run_now", self.world.now)
+        return (t, t)
 
     @property
     def tick(self):
@@ -503,6 +507,7 @@ class ModelBackend(Backend):
         w.crash_at = None
         w.cwd = self.base
         self.step += 1
+        self.last_run_now = w.now
         w.now = w.now + self.tick
         return Result(exit_code, exc, out, err, list(w.ops[mark:]), exc_obj)
 
@@ -686,8 +691,17 @@ class RealBackend(Backend):
         return fa == fb
 
     # ---- tree
+    def _stamp_dirs(self, path):
+        """directories get a fixed modification time too (adding entries changes it), so that two builds of a tree are identical"""
+        d = path
+        while d.startswith(self.base) and d != self.base:
+            if os.path.isdir(d) and os.path.basename(d) != "ascmhl":
+                os.utime(d, (DEFAULT_MTIME, DEFAULT_MTIME))
+            d = os.path.dirname(d)
+
     def mkdir(self, rel, mtime=DEFAULT_MTIME):
         os.makedirs(self.p(rel), exist_ok=True)
+        self._stamp_dirs(self.p(rel))
 
     def mkfile(self, rel, cid, size=5, mtime=DEFAULT_MTIME):
         path = self.p(rel)
@@ -695,6 +709,7 @@ class RealBackend(Backend):
         with open(path, "wb") as f:
             f.write(real_content(cid, size))
         os.utime(path, (mtime, mtime))
+        self._stamp_dirs(os.path.dirname(path))
 
     def write_text(self, rel, text):
         path = self.p(rel)
@@ -747,6 +762,10 @@ class RealBackend(Backend):
     def touch(self, rel, mtime):
         os.utime(self.p(rel), (mtime, mtime))
 
+    def restamp(self, rel):
+        """give a directory its build-time modification time back (the kernel bumps it when the tool creates the ascmhl folder)"""
+        os.utime(self.p(rel), (DEFAULT_MTIME, DEFAULT_MTIME))
+
     def set_now(self, t, micro=0):
         self.now, self.now_micro = t, micro
 
@@ -774,17 +793,26 @@ class RealBackend(Backend):
             return
         doy = lambda t: max(1, min(365, dt.datetime.fromtimestamp(t, dt.timezone.utc).timetuple().tm_yday))
         dn, df = doy(now), doy(t_file)
-        wrap = lambda d: (d - 1) % 365 + 1
-        if dst_now and dst_file:
-            far = wrap((dn + df) // 2 + (182 if abs(dn - df) < 182 else 0))
-            start, end = wrap(far + 3), wrap(far - 3)
-        elif dst_now:
-            start, end = wrap(dn - 4), wrap(dn + 4)
-        elif dst_file:
-            start, end = wrap(df - 4), wrap(df + 4)
-        else:
-            far = wrap((dn + df) // 2 + (182 if abs(dn - df) < 182 else 0))
-            start, end = wrap(far - 2), wrap(far + 2)
+
+        def inside(d, a, e):
+            return (a <= d < e) if a < e else (d >= a or d < e)
+
+        # a DST period that (a) gives the two instants the requested flags, (b) keeps >= 3 days distance from both and
+        # (c) like every real zone contains exactly one of 1 January / 1 July (CPython derives time.altzone from those two days)
+        start = end = None
+        for a in range(1, 366, 3):
+            for e in range(1, 366, 3):
+                if a == e:
+                    continue
+                ok = inside(dn, a, e) == bool(dst_now) and inside(df, a, e) == bool(dst_file) and inside(1, a, e) != inside(182, a, e)
+                ok = ok and all(min(abs(d - x), 365 - abs(d - x)) >= 3 for d in (dn, df) for x in (a, e))
+                if ok:
+                    start, end = a, e
+                    break
+            if start:
+                break
+        if start is None:
+            raise ReplayInfeasible()
         self.tz = "VST%sVDT%s,J%d/0,J%d/0" % (hhmm(std_off), hhmm(dst_off), start, end)
 
     # ---- queries
